@@ -30,6 +30,25 @@ theorem inv_mk (ids : List Id) (rows : List Row) (b : Bool) (s : State) (h : mk 
     refine ⟨rfl, by simpa using hl, ?_⟩
     intro m hm; cases b <;> simp at hm; exact hm.symm
 
+/-- the write-through of a slice preserves the invariant (repaired code) -/
+theorem inv_locWrite_fixed (s : State) (sel : List Id) (v : List Row) (h : AInv s) :
+    AInv (step Cfg.fixed s (.locWrite sel v)) := by
+  obtain ⟨hfd, hlen, hidx⟩ := h
+  simp only [step, locWrite]
+  split
+  · rename_i t ht
+    split at ht
+    · cases ht
+    · split at ht
+      · cases ht
+      · cases ht
+        refine ⟨by simp [Cfg.fixed], ?_, hidx⟩
+        simp only
+        rw [show (fun fr (x : Id × Row) => match x with | (i, r) => setRow s.ids fr i r)
+              = (fun fr (p : Id × Row) => setRow s.ids fr p.1 p.2) from by funext fr ⟨i, r⟩; rfl]
+        rw [foldl_setRow_length]; exact hlen
+  · exact ⟨hfd, hlen, hidx⟩
+
 /-- **C08_inv (step)** for the repaired code: every public update preserves the invariant. -/
 theorem inv_step_fixed (s : State) (op : Op) (h : AInv s) : AInv (step Cfg.fixed s op) := by
   obtain ⟨hfd, hlen, hidx⟩ := h
@@ -85,6 +104,19 @@ theorem inv_step_fixed (s : State) (op : Op) (h : AInv s) : AInv (step Cfg.fixed
       · rename_i hl; cases ht
         exact ⟨rfl, by simpa using hl, hidx⟩
     · exact ⟨hfd, hlen, hidx⟩
+  | ilocWrite pos v =>
+    simp only [step, ilocWrite]
+    cases hm : pos.mapM (fun k => s.ids[k]?) with
+    | none => exact ⟨hfd, hlen, hidx⟩
+    | some sel =>
+      simp only
+      have := inv_locWrite_fixed s sel v ⟨hfd, hlen, hidx⟩
+      simpa [step] using this
+  | overwriteIds ids v =>
+    simp only [step, overwriteIds]
+    cases hm : mk ids v false with
+    | error e => exact ⟨hfd, hlen, hidx⟩
+    | ok t => exact inv_mk ids v false t hm
 
 /-- **C08_reachable**: any finite sequence of public updates. -/
 theorem inv_reachable_fixed (s : State) (ops : List Op) (h : AInv s) : AInv (ops.foldl (step Cfg.fixed) s) := by
@@ -105,5 +137,3 @@ theorem update_breaks_current : InvB (step Cfg.current s0 (.update [1] [[some 0]
 example : InvB (step Cfg.fixed s0 (.locWrite [3, 9] [[some 30], [some 50]])) = true := by decide
 example : InvB (step Cfg.fixed s0 (.update [1] [[some 0]] true)) = true := by decide
 
-#print axioms inv_reachable_fixed
-#print axioms locWrite_breaks_current
